@@ -66,7 +66,9 @@ pub fn builder_from(tokens: &[&str]) -> Result<rpm::PackageBuilder, rpm::Error> 
             "vc" => b.vcs(hs(x)),
             "ck" => b.cookie(hs(x)),
             "bh" => b.build_host(hs(x)),
-            "c" => apply_compression(b, x),
+            // `clast`: compression() is called AFTER source_date() instead (seed C11-9: a compression() that rebuilt its
+            // configuration from the default dropped a source date set earlier); the setters are independent of each other
+            "c" => if tokens.iter().any(|t| *t == "clast") { b } else { apply_compression(b, x) },
             _ => b,
         };
     }
@@ -78,6 +80,9 @@ pub fn builder_from(tokens: &[&str]) -> Result<rpm::PackageBuilder, rpm::Error> 
         // finding C17); should it ever be accepted instead, nothing in the package may be later than that date (seed C11-10)
         if let Some(x) = get("sdneg") { b = b.source_date(chrono::DateTime::from_timestamp(-(x.parse::<i64>().unwrap()), 0).unwrap()); }
         if let Some(x) = get("sdt") { b = apply_typed_source_date(b, x); }
+    }
+    if tokens.iter().any(|t| *t == "clast") {
+        if let Some(x) = get("c") { b = apply_compression(b, x); }
     }
     let dir = scratch_dir();
     let mut fi = 0;
